@@ -110,4 +110,11 @@ theorem C24_cons_empty (ord : Order) (ho : OrderOK ord) (u v : Term) (a : State)
     obtain ⟨b, hb, post⟩ := comp_atom ho (.eq u v) ⟨bu, bv⟩ hp hi hγ e
     exact ⟨b, hb, post.imp id fun h => h.2.2⟩
 
+section Examples
+/-- non-vacuity: `first([1, 2], x)` from the empty state over one variable — the engine delivers one unpoisoned state with x = 1 -/
+example : ((runF (solveAt (defs Order.default) 5 2) 20 (solveAt (defs Order.default) 5 2
+    (firstG Order.default false (ofList [Term.num 1, Term.num 2]) (.var 0)) (State.empty 1))).map
+      fun s => (s.panic.isSome, apply s.σ (.var 0))) = [(false, Term.num 1)] := by decide +kernel
+end Examples
+
 end Pv
